@@ -56,6 +56,72 @@ def add_rows(rng, e, kinds=None):
     return e2, new
 
 
+def model_reuse_stage(run, n):
+    """the same model object polled twice (a long-running caller keeps the model between feeds): the second poll, whose feed has an
+    extra unexpected unit, must give what a fresh model gives on that feed - nothing kept from the first poll may hide the unit"""
+    C.use_repo()
+    from elexmodel.handlers.data.CombinedData import CombinedDataHandler
+    from elexmodel.handlers.data.PreprocessedData import PreprocessedDataHandler
+    from elexmodel.models.GaussianElectionModel import GaussianElectionModel
+    from elexmodel.models.NonparametricElectionModel import NonparametricElectionModel
+    import numpy as np
+
+    rng = run.rng
+    est = "turnout"
+    for k in range(n):
+        M = [NonparametricElectionModel, GaussianElectionModel][k % 2]
+        e = E.gen_election(rng, size="small", roles=["reporting"] * 6 + ["partial"] * 3 + ["zero-percent"], unexpected=True, min_reporting=12)
+        e2, new = add_rows(rng, e, kinds=["known-county", "unknown-county"])
+        new = [r for r in new if r["results_turnout"] > 0]
+        if not new:
+            continue
+        levels = [["postal_code"], ["postal_code", "county_fips"]]
+
+        def frames(el):
+            pre = PreprocessedDataHandler(E.ELECTION_ID, el.office, el.unit_type, [est], {est: est}, data=el.pre.copy()).data
+            data = CombinedDataHandler(pre, el.cur.copy(), [est], el.unit_type, handle_unreporting="drop")
+            return data.get_units(el.threshold, 0.5, 2.0, [], [], False, False, 2.0, ["postal_code", "county_fips"])
+
+        def poll(model, el):
+            rep, nonrep, unexp = (f.copy() for f in frames(el))
+            out = {}
+            with np.errstate(all="ignore"):
+                preds, _ = model.get_unit_predictions(rep, nonrep, est, unexpected_units=unexp)
+                rep[f"pred_{est}"], nonrep[f"pred_{est}"], unexp[f"pred_{est}"] = rep[f"results_{est}"], preds, unexp[f"results_{est}"]
+                pi = model.get_unit_prediction_intervals(rep, nonrep, 0.7, est)
+                for fr, lo, hi in ((rep, rep[f"results_{est}"], rep[f"results_{est}"]), (nonrep, pi.lower, pi.upper),
+                                   (unexp, unexp[f"results_{est}"], unexp[f"results_{est}"])):
+                    fr[f"lower_0.7_{est}"], fr[f"upper_0.7_{est}"] = lo, hi
+                for lv in levels:
+                    df = model.get_aggregate_predictions(rep, nonrep, unexp, lv, est)
+                    iv = model.get_aggregate_prediction_intervals(rep, nonrep, unexp, lv, 0.7, pi, est)
+                    df = df.copy()
+                    df["lower"], df["upper"] = np.asarray(iv.lower), np.asarray(iv.upper)
+                    out["-".join(lv)] = df
+            return out
+
+        case = {"model_reuse": M.__name__, "election": e.describe(), "extra_rows": new}
+        run.case(case, True)
+        run.count("model object polled twice")
+        try:
+            settings = {"save_conformalization": False}
+            model = M(dict(settings))
+            poll(model, e)
+            second = poll(model, e2)
+            fresh = poll(M(dict(settings)), e2)
+        except Exception as ex:
+            run.violation("polling a model object a second time failed: " + type(ex).__name__, input=case, impl=str(ex)[:200],
+                          predicate="unexpected_adds_votes", signature="C11:reuse-raise", election=e2.to_json())
+            continue
+        d = P.diff_tables(fresh, second)
+        if d:
+            run.violation("the second poll of a model object does not show the unexpected unit's votes as a fresh model does "
+                          "(something is kept from the first poll)", input=case, impl=[str(x) for x in d[0]],
+                          predicate="unexpected_adds_votes / groups_after_unexpected", signature="C11:reuse", election=e2.to_json())
+        else:
+            run.traces += 1
+
+
 def corpus(run, driver):
     """minimised past failures run first"""
     import json
@@ -94,6 +160,7 @@ def explore(run, driver, budget):
             continue
         caseB = dict(case, election=e2)
         check_pair(run, driver, case, caseB, new, pi)
+    model_reuse_stage(run, {"quick": 4, "thorough": 200, "search": 30}[budget])
     run.info["bootstrap_cells_equal_within_1e-9_but_not_bitwise"] = P.NOISE["cells"]
 
 
